@@ -214,7 +214,7 @@ class Session:
         self._metas.append(meta)
         return meta
 
-    def validate(self, meta, module, cfg=None, known=(), timeout=1800, heap="3g", shard=60000, extra_files=(), par=8):
+    def validate(self, meta, module, cfg=None, known=(), timeout=1800, heap="3g", shard=60000, extra_files=(), par=8, constants=None):
         """Trace validation: TLC checks every record the driver observed against the trace spec (records are
         sharded over several TLC processes). Raises Violation for a record that breaks the spec and is not a
         listed known finding."""
@@ -239,6 +239,11 @@ class Session:
                 d = self.spec_dir(extra_files)
                 with open(os.path.join(d, "records.ndjson"), "wb") as f:
                     f.write(b"\n".join(part) + (b"\n" if part else b""))
+                if constants:
+                    txt = open(os.path.join(d, cfg)).read()
+                    for ck, cv in constants.items():
+                        txt = re.sub(r"(\b%s\s*=\s*)\S+" % re.escape(ck), lambda m: m.group(1) + str(cv), txt)
+                    open(os.path.join(d, cfg), "w").write(txt)
                 r = self.tlc(module, cfg, d, workers=1, timeout=timeout, heap=heap)
                 shutil.rmtree(d, ignore_errors=True)
                 st += r.get("distinct", 0)
@@ -288,6 +293,28 @@ class Session:
             raise violation
         self.drivers.append({k: meta[k] for k in ("driver", "evaluations", "distinct_nontrivial", "rule", "exhaustive", "traces", "wall_s")}
                             | {"trace_spec": module + "/" + cfg, "extra": meta.get("extra")})
+
+    def binding_selftest(self, meta, module, mutate, cfg=None, constants=None, expect=None):
+        """Demonstrates that the trace spec is bound to what was recorded: corrupt one field of one recorded
+        trace and require TLC to reject it. A spec that still accepts is vacuous -> the check cannot decide."""
+        cfg = cfg or module + ".cfg"
+        path = os.path.join(meta["dir"], meta["files"][0])
+        first = open(path, "rb").readline()
+        rec = json.loads(first)
+        mutate(rec)
+        d = self.spec_dir()
+        with open(os.path.join(d, "records.ndjson"), "w") as f:
+            f.write(json.dumps(rec) + "\n")
+        if constants:
+            txt = open(os.path.join(d, cfg)).read()
+            for ck, cv in constants.items():
+                txt = re.sub(r"(\b%s\s*=\s*)\S+" % re.escape(ck), lambda m: m.group(1) + str(cv), txt)
+            open(os.path.join(d, cfg), "w").write(txt)
+        r = self.tlc(module, cfg, d, workers=1, timeout=600)
+        shutil.rmtree(d, ignore_errors=True)
+        if not r.get("violation") or (expect and r.get("invariant") != expect):
+            raise Undecided("binding self-test: a corrupted trace was not rejected by %s (%s)" % (module, r.get("invariant")))
+        self.notes.append("binding self-test: %s rejects a trace with one corrupted field (%s)" % (module, r.get("invariant")))
 
     # ---------------------------------------------------------------- evidence
     def evidence(self, level, violations, assumptions, explanation=None):
